@@ -47,7 +47,7 @@ Fixpoint trees (d : nat) (wide : bool) : list (tree nat) :=
              [1%N; 2%N]
   end.
 Definition universe : list (tree nat) := trees 2 true ++ trees 4 false.
-Definition tests : list ntest := [NTName 1; NTName 2; NTAny].
+Definition tests : list ntest := [NTName 1; NTName 2; NTAny].   (* names 1, 2 are in no namespace; NTNs is covered by the unbounded theorems *)
 Definition step_lists : list (list ntest) :=
   map (fun a => [a]) tests ++ flat_map (fun a => map (fun b => [a; b]) tests) tests ++
   flat_map (fun a => flat_map (fun b => map (fun c => [a; b; c]) tests) tests) tests.
@@ -61,21 +61,21 @@ Definition ctx_guard (desc : bool) (steps : list ntest) (t : tree nat) : bool :=
 
 Definition check_child_only : bool :=
   forallb (fun t => forallb (fun st => let p := mkSpath false st None in
-                                       same_set (matcher_selects nat false (compile_path p) t) (sel_path nat p t))
+                                       same_set (matcher_selects nat false false (compile_path p) t) (sel_path nat p t))
                             step_lists) universe.
 Definition check_fixed : bool :=
   forallb (fun t => forallb (fun st => forallb (fun d => let p := mkSpath d st None in
-                                       same_set (matcher_selects nat true (compile_path p) t) (sel_path nat p t))
+                                       same_set (matcher_selects nat true false (compile_path p) t) (sel_path nat p t))
                                                [false; true]) step_lists) universe.
 Definition check_sound : bool :=
   forallb (fun t => forallb (fun st => let p := mkSpath true st None in
                                        negb (ctx_guard true st t) ||
-                                       subset (matcher_selects nat false (compile_path p) t) (sel_path nat p t))
+                                       subset (matcher_selects nat false false (compile_path p) t) (sel_path nat p t))
                             step_lists) universe.
 Definition check_desc_one_step : bool :=
   forallb (fun t => forallb (fun s => let p := mkSpath true [s] None in
                                       negb (ctx_guard true [s] t) ||
-                                      same_set (matcher_selects nat false (compile_path p) t) (sel_path nat p t))
+                                      same_set (matcher_selects nat false false (compile_path p) t) (sel_path nat p t))
                             tests) universe.
 
 Lemma check_child_only_ok : check_child_only = true. Proof. vm_compute. reflexivity. Qed.
